@@ -2,3 +2,4 @@ pub mod bfs;
 pub mod models;
 pub mod proto;
 pub mod rt;
+pub mod sched;
